@@ -291,7 +291,7 @@ fn gen_sampled(rng: &mut Rng) -> SScript {
 fn shrink_script<S, F: Fn(&S) -> usize, G: Fn(&S, usize) -> S, P: Fn(&S) -> bool>(s: S, len: F, without: G, fails: P) -> S {
     let mut cur = s;
     let mut i = 0;
-    let mut budget = 300;
+    let mut budget = crate::engine::SHRINK_BUDGET.load(std::sync::atomic::Ordering::Relaxed);
     while i < len(&cur) && budget > 0 {
         let cand = without(&cur, i);
         budget -= 1;
